@@ -160,6 +160,70 @@ def synthetic_task(task):
     return None, part
 
 
+def library_task(task):
+    """Library use (as the repository's own posterior tests do it): one kernel and one set of samplers serve many sweeps
+    of whole-tree and subtree particle Gibbs, data-point and prune-regraft moves; the proposal caches are never cleared;
+    the concentration is changed in place now and then."""
+    from vlib import cache_shadow
+    from vlib.harness import Partial, describe_exception
+    from phyclone.mcmc import (DataPointSampler, ParticleGibbsSubtreeSampler, ParticleGibbsTreeSampler,
+                               PruneRegraphSampler)
+    from phyclone.smc.kernels import FullyAdaptedKernel, SemiAdaptedKernel
+    from phyclone.smc.utils import RootPermutationDistribution
+    from phyclone.tree import FSCRPDistribution, Tree, TreeJointDistribution
+    from phyclone.utils.dev import clear_proposal_dist_caches
+
+    cache_shadow.install()
+    part = Partial()
+    for c in range(task["count"]):
+        rng = np.random.default_rng([task["seed"], task["shard"], c, 141])
+        n = int(rng.integers(3, 7))
+        op = [0.3, 0.0, 0.3][c % 3]
+        data = gen.make_data(rng, n, 2, 11, kind=["moderate", "smooth"][c % 2], outlier_prior=op)
+        kcls = [SemiAdaptedKernel, FullyAdaptedKernel][c % 2]
+        case = {"seed": task["seed"], "shard": task["shard"], "case": c, "n": n, "outlier_prior": op,
+                "kernel": kcls.__name__}
+        cache_shadow.reset()
+        clear_proposal_dist_caches()
+        g = np.random.default_rng([task["seed"], task["shard"], c, 142])
+        td = TreeJointDistribution(FSCRPDistribution(1.0))
+        kernel = kcls(td, g, outlier_proposal_prob=0.1 if op > 0 else 0.0, perm_dist=RootPermutationDistribution())
+        pg = ParticleGibbsTreeSampler(kernel, g, num_particles=4, resample_threshold=0.5)
+        sub = ParticleGibbsSubtreeSampler(kernel, g, num_particles=4, resample_threshold=0.5)
+        dps = DataPointSampler(td, g, outliers=op > 0)
+        prg = PruneRegraphSampler(td, g)
+        tree = Tree.get_single_node_tree(data)
+        try:
+            for sweep in range(task["sweeps"]):
+                if c % 2 == 0:
+                    move = [pg, sub][sweep % 2]  # whole-tree and subtree updates alternate, nothing copies in between
+                else:
+                    move = [pg, sub, sub, dps, prg, pg][int(g.integers(0, 6))]
+                tree = move.sample_tree(tree)
+                if c % 4 == 3 and sweep % 7 == 6:
+                    td.prior.alpha = float(np.exp(g.normal()))
+                part.count("evaluations")
+            part.count("library_loops")
+            part.see("library|%s|%s|%d" % (kcls.__name__, op, n))
+        except Exception as e:
+            et, where, msg = describe_exception(e)
+            if where == "outside-repo":
+                import traceback
+                part.inconc("harness error: " + traceback.format_exc()[-700:])
+            else:
+                part.violation("%s in %s during a library-style sampler loop without cache clearing" % (et, where),
+                               dict(case, msg=msg))
+        for fl in cache_shadow.FAILS:
+            part.violation(fl["what"] + " [library loop, caches never cleared]", dict(case, detail=fl["detail"]))
+        for k, v in cache_shadow.STATS.items():
+            if k.endswith("_max_dev"):
+                part.maxi(k, v)
+            else:
+                part.count(k, int(v))
+        clear_proposal_dist_caches()
+    return None, part
+
+
 def fft_task(task):
     """The two array caches on the FFT path (1000 grid points): evaluation histories over related child lists."""
     from vlib import cache_shadow
@@ -217,6 +281,10 @@ def run(ctx):
     ctx.map("checks.c14", "chain_task", tasks, timeout=3000)
     tasks = [{"seed": ctx.seed, "shard": i, "count": 10 if quick else 150} for i in range(shards)]
     ctx.map("checks.c14", "synthetic_task", tasks, timeout=3000)
+    tasks = [{"seed": ctx.seed, "shard": i, "count": 3 if quick else 30, "sweeps": 30 if quick else 60} for i in range(16)]
+    ctx.map("checks.c14", "library_task", tasks, timeout=3000)
+    if ctx.counters.get("library_loops", 0) < 10:
+        ctx.inconc("library-style loops did not run")
     tasks = [{"seed": ctx.seed, "shard": i, "count": 2 if quick else 10, "D": 1 + i % 2, "G": [1000, 1001][i % 2]}
              for i in range(4 if quick else 16)]
     ctx.map("checks.c14", "fft_task", tasks, timeout=3000)
